@@ -98,4 +98,11 @@ let () = run_lines (fun toks ->
     (match Model.x_poly_wr0 (chars_of_hex var) (b bal) (b word) (z_of_string lo) (z_of_string hi) (z_of_string p) (zlist_of_string cs) (zlist_of_string old) with
      | (t, Some (((cs2, r), e), f)) -> hex_of_chars t ^ " " ^ string_of_zlist cs2 ^ " " ^ hex_of_chars r ^ " " ^ fl e f
      | (t, None) -> hex_of_chars t ^ " UB")
+  | ["int.read.nocxx"; base; old; h] ->
+    (match Model.x_int_read_nocxx (zlist_of_string base) (chars_of_hex h) (z_of_string old) with Some r -> r3 r | None -> "UB")
+  | ["int.seqd.nocxx"; base; old; n; h] ->
+    let (t, u) = Model.x_int_seqd_nocxx (zlist_of_string base) (z_of_string old) (nat_s n) (chars_of_hex h) in
+    let toks = List.map (fun (((v, r), e), f) -> string_of_z v ^ ":" ^ fl e f ^ ":" ^ nx r) t in
+    if u then String.concat " " (toks @ ["UB"])
+    else String.concat " " (toks @ [match List.rev t with [] -> h | (((_, r), _), _) :: _ -> hex_of_chars r])
   | _ -> "BAD-LINE")
